@@ -422,6 +422,68 @@ def check_seqlabel(ck, prog, rule="C06-SEQLABEL", targets=(("lzma_decode", "lzma
     return n
 
 
+def check_outguard(ck, prog, rule="C06-OUTGUARD"):
+    """The state loop of a resumable DECODER must not be conditioned on free output space when some of its states make
+    progress without writing output (header bytes, end markers): with `while (*out_pos < out_size && ...)` a call made
+    with a full output buffer does not look at the input at all, so whether the end of the stream is recognised depends
+    on whether the last input bytes arrived together with the last output byte -- the same file gives LZMA_STREAM_END
+    in one slicing and LZMA_BUF_ERROR in another."""
+    from sa import resume
+    ck.rule(rule, "a decoder's state loop is not guarded by output space if some state needs none")
+    n = 0
+    for f in sorted(prog.all_functions("liblzma"), key=lambda f: (f.file, f.line)):
+        if not f.blocks or "decoder" not in f.file.rsplit("/", 1)[-1] and not f.name.endswith("_decode"):
+            continue
+        try:
+            sw = resume.Resume(prog, f).find_switch()
+        except Exception:
+            sw = None
+        if not sw:
+            continue
+        swb = sw[0]
+        n += 1
+        doms = cfg.dominators(f)
+        guards = [f.blocks[d] for d in doms.get(swb.id, ()) if f.blocks[d].term and "cond" in f.blocks[d].term and
+                  f.blocks[d].term.get("kind") in ("WhileStmt", "ForStmt", "BinaryOperator") and
+                  "out_pos" in ex.show(f.blocks[d].term["cond"]) and swb.id in cfg.reachable(f, [swb.id]) ]
+        guards = [g_ for g_ in guards if g_.id in cfg.reachable(f, [y for y in swb.succs if y is not None])]   # loop heads
+        noout = []
+        if guards:
+            labels = {}
+            for s_ in swb.succs:
+                if s_ is not None and f.blocks[s_].label and f.blocks[s_].label.get("n"):
+                    labels[s_] = f.blocks[s_].label["n"]
+            lab = set(labels)
+            for l in lab:
+                seen, st, uses = set(), [l], False
+                while st:
+                    x = st.pop()
+                    if x in seen:
+                        continue
+                    seen.add(x)
+                    for e in f.blocks[x].elems:
+                        if e is None:
+                            continue
+                        if any(any(ex.show(a) in ("out", "out_pos") for a in c["args"]) for c in ex.calls(e, into_refs=False)):
+                            uses = True
+                        if any(ex.show(l2).startswith("out[") for (l2, r2, o2, n2) in ex.writes(e)):
+                            uses = True
+                    st.extend(y for y in f.blocks[x].succs if y is not None and y != swb.id and y not in lab)
+                if not uses:
+                    noout.append(labels[l])
+        ck.saw_function(f)
+        ok = not (guards and noout)
+        ck.ob(rule, f.name, ok, common.where(f, guards[0].term["cond"] if guards else None),
+              "%s: %s" % (f.name, "state loop not guarded by output space" if not guards else
+                          "every state writes output") if ok else
+              "%s(): the state loop runs only while `%s`, but the states %s need no output space: with a full output buffer "
+              "the input is not looked at, so e.g. a stream decoded into a buffer of exactly its uncompressed size ends with "
+              "LZMA_STREAM_END if the end marker arrived in the same call and with LZMA_BUF_ERROR if it arrives in the next one"
+              % (f.name, ex.show(guards[0].term["cond"]), ", ".join(sorted(noout))), key="%s:%s" % (rule.split("-", 1)[1], f.name))
+    ck.floor(rule, 8)
+    return n
+
+
 def run(ck):
     ck.explanation = (
         "Static necessary conditions of slicing independence: (RESUME) liveness/reaching-definition "
@@ -435,6 +497,7 @@ def run(ck):
     prog = common.program(ck, ("liblzma",))
     check_resume(ck, prog)
     check_seqlabel(ck, prog)
+    check_outguard(ck, prog)
     check_crc(ck, prog)
     check_det(ck, prog)
     check_slice(ck, prog)
